@@ -17,6 +17,7 @@ LEVEL_NOTE = ("The theorems are about coq/Model/Hub.v (one listener call = one s
               "Model/HubWriter.v carries the writer/reader goroutines as far as an executable model does: frames (one text frame per event, pings, close frame), failing writes, deferred Close; "
               "the structure of WSWriter/WSReader, the hub operations, the selects and the Close order are read from the source by the translator (Gen/HubShape.v, Gen/HubWriter.v) and "
               "the model is proved to follow them (exec_op_is_source_program, writer_arms_pinned, …); the bytes of the WebSocket framing and real time are not modelled. "
+              "Keep-alive: that pings are sent on a TICKER (not restarted by event traffic) is tied to the source by writer_arms_pinned (a change such as `case <-time.After(pingPeriod)` is reported by the quick tier without a failing input); a failing input needs > 60 s of real time with a real client and is produced only by the thorough tier (kind wslong, 66 s per case) — the periods are Go constants, so no add-only hook can shorten them. "
               "The tie between model and code is sampled (differential testing).")
 TECHNIQUE = "machine-checked proof in Coq + model/code correspondence check"
 DESIGN_REF = "DESIGN.md §4 C15"
@@ -39,7 +40,7 @@ KNOWN_MUST_REPRODUCE = True
 
 
 def nontrivial(kind, ins, outs):
-    if kind in ("fed", "fedstop", "ws"):
+    if kind in ("fed", "fedstop", "ws", "wslong"):
         return True
     if kind == "asm15":
         return True
